@@ -16,14 +16,38 @@ from rxsim.runner import Check, Outcome
 from rxsim.core import resolve_schedule, canon
 
 NOTSET = rs.state.markers.STATE_NOTSET
-TYPES = ('int', 'uint', 'float', 'bool', 'obj', 'mapper')
-PYTYPE = {'int': int, 'uint': 'uint', 'float': float, 'bool': bool, 'obj': 'obj'}
+import numpy as _np
+
+
+class Money(float):
+    """a float subclass carrying an attribute: as data type it is 'any other class', i.e. kept as an object"""
+    def __new__(cls, v, cur='USD'):
+        o = float.__new__(cls, v)
+        o.cur = cur
+        return o
+
+
+# 'npfloat' and 'fsub': data types that are subclasses of float (scan declares type(seed)); they are object states
+TYPES = ('int', 'uint', 'float', 'bool', 'obj', 'mapper', 'npfloat', 'fsub')
+PYTYPE = {'int': int, 'uint': 'uint', 'float': float, 'bool': bool, 'obj': 'obj', 'npfloat': _np.float64, 'fsub': Money}
+
+
+def wrap(t, v):
+    """the value as it is handed to the store (the case document holds plain JSON values)"""
+    if t == 'npfloat':
+        return _np.float64(v)
+    if t == 'fsub':
+        return Money(v, 'USD' if v >= 0 else 'EUR')
+    return v
+
 DEFAULTS = {
     'int': [None, None, 0, -1, 5],
     'uint': [None, None, 0, 3],
     'float': [None, None, 0.0, 1.5],
     'bool': [None, None, False, True],
     'obj': [None, None, 'dflt', [1, 2], 0],     # lists in the case stand for tuples (immutable default)
+    'npfloat': [None],
+    'fsub': [None],
 }
 OBJ_VALUES = [None, 0, 1, '', 'x', [3], {'k': 1}, [], 2.5, True, -7]
 
@@ -33,7 +57,7 @@ def mk_value(rng, t):
         return rng.choice([0, 1, -1, 2 ** 63 - 1, -2 ** 63, rng.randint(-10 ** 12, 10 ** 12), rng.randint(-5, 5)])
     if t == 'uint':
         return rng.choice([0, 1, 2 ** 64 - 1, 2 ** 63, rng.randint(0, 10 ** 15), rng.randint(0, 9)])
-    if t == 'float':
+    if t in ('float', 'npfloat', 'fsub'):
         return rng.choice([0.0, -0.0, 1.5, -2.25, 1e300, 5e-324, float(rng.randint(-9, 9)), rng.random() * 1e6])
     if t == 'bool':
         return rng.random() < 0.5
@@ -56,6 +80,10 @@ def same(t, got, exp):
         return type(got) is float and (got == exp and math.copysign(1, got) == math.copysign(1, exp))
     if t == 'bool':
         return type(got) is bool and got == exp
+    if t == 'npfloat':
+        return type(got) is _np.float64 and float(got).hex() == float(exp).hex()
+    if t == 'fsub':
+        return type(got) is Money and float(got).hex() == float(exp).hex() and got.cur == wrap(t, exp).cur
     return canon(got) == canon(exp)
 
 
@@ -111,7 +139,7 @@ class C14(Check):
                    'iterate_state is a read of all slots: it must enumerate exactly the live indices (an operation on one index must not make another index appear)',
                    'del_map is not part of the statement']
     probe_names = ('readd_after_delete', 'sparse_growth', 'descending_indices', 'type:int', 'type:uint', 'type:float', 'type:bool', 'type:obj',
-                   'type:mapper', 'with_default', 'clients>=3', 'map_parent_deleted_then_new_index', 'extreme_values')
+                   'type:mapper', 'type:npfloat', 'type:fsub', 'with_default', 'clients>=3', 'map_parent_deleted_then_new_index', 'extreme_values')
     quick_cap = 400000
 
     def gen(self, rng, tier):
@@ -253,7 +281,7 @@ class C14(Check):
                     maxidx[s] = max(maxidx[s], i)
                 elif k == 'set':
                     v = op['v']
-                    sm.set_state(ids[s], key_of(i), v)
+                    sm.set_state(ids[s], key_of(i), wrap(t, v))
                     if t in ('int', 'uint') and abs(v) >= 2 ** 62:
                         p['extreme_values'] += 1
                 elif k == 'get':
